@@ -1089,7 +1089,10 @@ pub fn check_c15(case: &FCase, run: &Run) -> Result<(bool, Vec<String>), Violati
         if let FEv::Depth { after, depth } = e {
             let Some(sp) = sent_pos.get(after) else { continue };
             if let (Some((l, newest)), lowered) = limit_at(*sp) {
-                let judge = factory_queueing && !case.priority_queue && (!lowered || (!newest && case.routing == Routing::Queuer));
+                // a job refused by the rate limiter never reaches the queue, so a limit that was lowered at
+                // run time cannot be enforced on the jobs already waiting by that dispatch
+                let rate_limited = ev.iter().any(|(_, x)| matches!(x, FEv::Discard { reason, id } if *id == *after && reason == "RateLimited"));
+                let judge = factory_queueing && !case.priority_queue && (!lowered || (!newest && case.routing == Routing::Queuer && !rate_limited));
                 if judge && *depth > l {
                     return Err(viol("C15/queue-over-limit", format!("after job {after} was processed the factory queue holds {depth} jobs, the discard limit in force was {l} ({})", if newest { "newest" } else { "oldest" })));
                 }
